@@ -51,6 +51,16 @@ THEOREMS = [
     "Verif.C01.parseTime_spec",
     "Verif.C01.digitsToNat_eq",
     "Verif.C01.tokNs_floor",
+    "Verif.C01.wf_samples_sorted",
+    "Verif.C01.applyMask_wf",
+    "Verif.C01.getitemFull_wf",
+    "Verif.C01.mask_then_window",
+    "Verif.C01.window_then_mask",
+    "Verif.C01.timeString_drop_newline",
+    "Verif.C01.parseTime_iff",
+    "Verif.C01.bodyMatch_iff_rx",
+    "Verif.C01.timeString_iff_rx",
+    "Verif.C01.matchFull_accepts_iff_rx",
 ]
 RULE = (
     "corpus (F1, F6 inputs) + exhaustive small scope (n<=5 samples, dt in {1,2,3,5}, two starts, every window "
